@@ -62,7 +62,11 @@ CHECKS['C13'] = dict(level='exploration', ref='DESIGN.md 3.4, 6 (C13)',
    text='FanoutTrace.tla: N CacheOps states + the observed routing function; key-addressed calls are the CacheOps step on the routed shard, aggregates (len, clear, expire, evict, cull, stats, iteration both ways) are folds over all shards exactly once, the size limit is total/N. Random histories on 1/2/3/8/13 shards with the projection of every shard after every call are validated by TLC. '
         'Routing: the shard of 62 keys (ints incl. 64-bit boundaries, floats, text, bytes, composite) is computed in fresh interpreters with different PYTHONHASHSEED values, compared with each other and with the table recorded from the released version (fixtures/routing.json); numerically equal int/float keys landing in different shards are the listed known finding.',
    technique='trace validation by TLC against a TLA+ sharded-cache spec; routing tables compared across interpreters and with a recorded fixture')
-NOTES = {'C13': SEQ_NOTE + ' Aggregate operations under lock timeouts (FanoutCache._remove resuming after Timeout) are only covered with one shard (C14).', 'C11': CONC_NOTE, 'C12': CONC_NOTE + ' No exhaustive TLC exploration of the Index composition yet (level exploration).', 'C14': CONC_NOTE, 'C07': 'Trusted: SQLite atomic commit / WAL recovery and release of the write lock on process death; kill points are the boundary events of the victim (before each statement, file create/write/close/remove, directory create/remove); the lazy cull of writes is switched off in kill workloads (not observable per call). Deque/Index workloads are killed in C11/C12.', 'C08': CONC_NOTE + ' Faults are not injected into COMMIT/ROLLBACK (SQLite atomic commit trusted) nor into file removal (removing an existing file is assumed to succeed).', 'C05': CONC_NOTE, 'C06': CONC_NOTE, 'C03': SEQ_NOTE, 'C04': SEQ_NOTE, 'C09': SEQ_NOTE, 'C10': SEQ_NOTE}
+CHECKS['C19'] = dict(level='exploration', ref='DESIGN.md 3.4, 6 (C19)',
+   text='DjangoTrace.tla states the contract on top of the CacheOps operators: made keys prefix:version:key, timeout mapping (DEFAULT -> backend TIMEOUT, None forever, 0/negative already expired), add/get/set/touch/delete/incr/decr(ValueError)/has_key/get_many/set_many/delete_many/get_or_set/incr_version/decr_version/pop/clear. '
+        'Random call sequences under a virtual clock over keys x versions x timeout classes x backend TIMEOUT/KEY_PREFIX/VERSION/SHARDS are validated by TLC (return values); the same plans through Django\'s own LocMemCache validate the spec\'s reading of the contract (a disagreement there is a machinery failure, not a violation).',
+   technique='trace validation by TLC against a TLA+ statement of the Django cache contract, cross-checked against LocMemCache')
+NOTES = {'C19': SEQ_NOTE + ' Return values the contract leaves open (set, delete_many, clear, delete of an expired item) are not compared.', 'C13': SEQ_NOTE + ' Aggregate operations under lock timeouts (FanoutCache._remove resuming after Timeout) are only covered with one shard (C14).', 'C11': CONC_NOTE, 'C12': CONC_NOTE + ' No exhaustive TLC exploration of the Index composition yet (level exploration).', 'C14': CONC_NOTE, 'C07': 'Trusted: SQLite atomic commit / WAL recovery and release of the write lock on process death; kill points are the boundary events of the victim (before each statement, file create/write/close/remove, directory create/remove); the lazy cull of writes is switched off in kill workloads (not observable per call). Deque/Index workloads are killed in C11/C12.', 'C08': CONC_NOTE + ' Faults are not injected into COMMIT/ROLLBACK (SQLite atomic commit trusted) nor into file removal (removing an existing file is assumed to succeed).', 'C05': CONC_NOTE, 'C06': CONC_NOTE, 'C03': SEQ_NOTE, 'C04': SEQ_NOTE, 'C09': SEQ_NOTE, 'C10': SEQ_NOTE}
 
 checks = []
 for pid, c in sorted(CHECKS.items()):
